@@ -413,6 +413,7 @@ type Runtime interface {
 	RangeTable() string // unformatted rangeTable0 text
 	Load(p *golit.Prefix) error
 	Dump() string
+	ResetGlobals()
 	Run(input []byte, o *RunOpts, ctx *Ctx) *Obs
 }
 
